@@ -152,11 +152,11 @@ def recheck(args):
             print(sid, meta["breaks"])
             props = ALL if args.all else [meta["breaks"]]
             if not ok:
-                base, res = differential(os.path.join(d, "patch.diff"), props, args.tier, run_checks)
-                if base is None:
+                base_commit, res = differential(os.path.join(d, "patch.diff"), props, args.tier, run_checks)
+                if base_commit is None:
                     print(sid, "PATCH APPLIES TO NO KNOWN TREE")
                     continue
-                meta["differential_base"] = base
+                meta["differential_base"] = base_commit
             else:
                 res = run_checks(patched, props, args.tier)
             for r in res.values():
